@@ -59,8 +59,51 @@ pub struct RefState {
     pub sql: String,
     pub ok: bool,
     pub in_txn_after: bool,
+    /// the statement text is longer than the TOAST threshold (it writes a toasted value)
+    #[serde(default)]
+    pub long_sql: bool,
     pub tables: Vec<MTable>,
     pub obs: Obs,
+}
+
+/// Development aid (`vcheck --crash-sql <replay.json>`): print the statements of a crash case's workload.
+pub fn print_sql(replay: &str) {
+    let v: serde_json::Value = serde_json::from_str(&std::fs::read_to_string(replay).expect("replay")).expect("json");
+    let w: Workload = serde_json::from_value(v["case"]["w"].clone()).expect("workload");
+    let gates: std::collections::BTreeSet<String> = w.closed_gates.iter().cloned().collect();
+    for s in &w.setup {
+        println!("{}", s);
+    }
+    let mut model = Model::new(&w.h.tables, false);
+    for t in model.tables.clone() {
+        for sql in Model::create_sql(&t) {
+            println!("{}", sql);
+        }
+    }
+    if w.ckpt_schema {
+        println!(".reopen");
+        for s in &w.setup {
+            println!("{}", s);
+        }
+    }
+    for op in &w.h.ops {
+        let Some(r) = model.resolve(op) else { continue };
+        if r.tags.iter().any(|t| gates.contains(*t)) {
+            continue;
+        }
+        if w.ckpt_schema && !matches!(r.kind, "INSERT" | "UPDATE" | "DELETE" | "BEGIN" | "COMMIT" | "ROLLBACK" | "SAVEPOINT" | "ROLLBACK_TO" | "RELEASE" | "CHECKPOINT" | "PRAGMA_CHECKPOINT") {
+            continue;
+        }
+        match r.lifecycle {
+            Some(Lifecycle::Checkpoint) => println!("PRAGMA wal_checkpoint"),
+            Some(_) => continue,
+            None => println!("{}", r.sql),
+        }
+        // (the child adopts a statement's effects only when TurDB accepted it; for printing, assume the model's verdict)
+        if matches!(r.expect, Expect::Ok { .. }) || !matches!(r.txn, TxnEffect::None) {
+            model.commit(&r);
+        }
+    }
 }
 
 /// Child: run the workload. Never returns.
@@ -79,14 +122,21 @@ pub fn child_main(args_path: &str) -> ! {
         db.execute(s).expect("setup pragma");
     }
     let wdb = Db { dir: vcore::tmp::TempDir::new("crash-child-unused"), path: args.dbdir.clone(), handle: Some(db) };
+    // (the child leaves through _exit: nothing would remove the placeholder directory later)
+    let _ = std::fs::remove_dir_all(wdb.dir.path());
     let mut model = Model::new(&args.w.h.tables, false);
     let mut idx = 0usize;
     let mut emit = |model: &Model, wdb: &Db, kind: &str, sql: &str, ok: bool, idx: usize| {
         let pts = if args.armed { turdb::verif::points_so_far() } else { 0 };
         let _ = writeln!(ack, "{} {} {} {}", idx, if ok { "ok" } else { "err" }, pts, kind);
         if let Some(f) = obsf.as_mut() {
-            let st = RefState { stmt: idx, kind: kind.to_string(), sql: sql.chars().take(300).collect(), ok, in_txn_after: model.in_txn(), tables: model.tables.clone(), obs: obs(wdb, &model.tables, true) };
+            let st = RefState { stmt: idx, kind: kind.to_string(), sql: sql.chars().take(300).collect(), ok, in_txn_after: model.in_txn(), long_sql: sql.len() > 1000, tables: model.tables.clone(), obs: obs(wdb, &model.tables, true) };
             let _ = writeln!(f, "{}", serde_json::to_string(&st).unwrap());
+        }
+        // the statement boundary itself is a crash point: the process is killed while idle, right after
+        // the acknowledgement (nothing of a later statement has run)
+        if args.armed {
+            turdb::verif::point("ack");
         }
     };
     for t in model.tables.clone() {
@@ -205,7 +255,14 @@ pub fn observe_mode(dir: &Path, schemas: &[Vec<MTable>], scratch: &Path, tag: &s
     let sp = scratch.join(format!("schemas-{}{}.json", tag, if degraded { "d" } else { "" }));
     std::fs::write(&sp, serde_json::to_string(schemas).unwrap()).unwrap();
     let mut cmd = Command::new(std::env::current_exe().unwrap());
-    cmd.arg("--crash-observe").arg(dir).arg(&sp).stdout(Stdio::piped()).stderr(Stdio::piped());
+    // output goes to files: an observation with long values is larger than a pipe buffer, and a parent that
+    // only polls for the exit would leave the child blocked in write() forever
+    let outp = scratch.join(format!("observed-{}{}.out", tag, if degraded { "d" } else { "" }));
+    let errp = scratch.join(format!("observed-{}{}.err", tag, if degraded { "d" } else { "" }));
+    let (Ok(outf), Ok(errf)) = (std::fs::File::create(&outp), std::fs::File::create(&errp)) else {
+        return Observed::Died("cannot create observer output files".into());
+    };
+    cmd.arg("--crash-observe").arg(dir).arg(&sp).stdout(Stdio::from(outf)).stderr(Stdio::from(errf));
     if degraded {
         cmd.env("VERIF_OBSERVE_DEGRADED", "1");
     }
@@ -218,29 +275,29 @@ pub fn observe_mode(dir: &Path, schemas: &[Vec<MTable>], scratch: &Path, tag: &s
         match ch.try_wait() {
             Ok(Some(_)) => break,
             Ok(None) => {
-                if start.elapsed() > Duration::from_secs(60) {
+                if start.elapsed() > Duration::from_secs(120) {
                     let _ = ch.kill();
                     let _ = ch.wait();
-                    return Observed::Died("observer timed out after 60 s".into());
+                    // a watchdog hit is never a verdict (the machine may simply be loaded): the caller reports
+                    // the run as inconclusive
+                    return Observed::Died("TIMEOUT: observer did not finish within 120 s".into());
                 }
                 std::thread::sleep(Duration::from_millis(2));
             }
             Err(e) => return Observed::Died(e.to_string()),
         }
     }
-    let out = ch.wait_with_output().map_err(|e| e.to_string());
-    match out {
-        Ok(o) => {
-            let text = String::from_utf8_lossy(&o.stdout);
-            match serde_json::from_str::<Result<Vec<Obs>, String>>(text.trim()) {
-                Ok(Ok(v)) => Observed::Ok(v),
-                Ok(Err(e)) => Observed::OpenFailed(e),
-                Err(_) => {
-                    let err = String::from_utf8_lossy(&o.stderr);
-                    Observed::Died(format!("observer exited with {:?}: {}", o.status.code(), err.lines().rev().take(3).collect::<Vec<_>>().join(" | ")))
-                }
-            }
-        }
+    let status = ch.wait().map_err(|e| e.to_string());
+    let text = std::fs::read_to_string(&outp).unwrap_or_default();
+    let err = std::fs::read_to_string(&errp).unwrap_or_default();
+    let _ = std::fs::remove_file(&outp);
+    let _ = std::fs::remove_file(&errp);
+    match status {
+        Ok(st) => match serde_json::from_str::<Result<Vec<Obs>, String>>(text.trim()) {
+            Ok(Ok(v)) => Observed::Ok(v),
+            Ok(Err(e)) => Observed::OpenFailed(e),
+            Err(_) => Observed::Died(format!("observer exited with {:?}: {}", st.code(), err.lines().rev().take(3).collect::<Vec<_>>().join(" | "))),
+        },
         Err(e) => Observed::Died(e),
     }
 }
